@@ -48,27 +48,27 @@ _STD = ('std / dependency contracts assumed by the Verus proofs (listed per grou
         'real std by the `assumptions` suite: exhaustive per char, bounded per string)')
 
 PROPS = {
-    'C01': dict(level='other', groups=['parse', 'fmt', 'inverse', 'builder', 'purl', 'cksum'], kani=ESC, bounded=['tokens:C01', 'spell:C01', 'format:C01'] + A,
+    'C01': dict(level='other', groups=['parse', 'fmt', 'inverse', 'builder', 'purl', 'cksum'], kani=ESC, bounded=['tokens:C01', 'scale:C01', 'spell:C01', 'format:C01'] + A,
         explanation='Proved for all strings (Verus): from_str == parse_post (the parser as a specification function written from the statement), Display::fmt == canon_spec, build() canonicalises; complete on a finite domain (Kani): every byte of every escape set through the real encoder. ALSO proved (group inverse, 100 lemmas): the inverse direction at the specification level -- for a valid type and normalised parts (what build() and the decoders guarantee), phase_a(canon_spec(ty, p)) and phase_b return exactly ty and the parts (lemma_parse_canon), from a per-character definition of percent-encoding and the assumed dec(enc(s)) = s. NOT proved: the checksum text is a fixpoint of parse + serialise, String::from_str is the identity, PackageType lookup of its own name; the end-to-end statement is therefore also checked BOUNDED on the real code: every accepted string of the token language T_N and of the spelling domain S is printed, re-parsed, compared and printed again, for String, SmallString and PackageType.'),
-    'C02': dict(level='other', groups=['parse', 'parse_seg', 'lib_shape', 'qual', 'cksum'], kani=['type_char', 'key_char'], bounded=['spell:C02', 'tokens:C02'] + A,
+    'C02': dict(level='other', groups=['parse', 'parse_seg', 'lib_shape', 'qual', 'cksum'], kani=['type_char', 'key_char'], bounded=['spell:C02', 'tokens:C02', 'scale:C02'] + A,
         explanation="Proved for all strings (Verus): from_str == parse_post -- designated separators taken right to left (last '#', last '?', first '/', last '@', last '/'), each component routed to its decoder; decode_subpath / decode_namespace / decode_qualifiers equal their fold specifications; type and key legality and lower-casing; checksum text. BOUNDED: that every permitted spelling of a tuple is mapped to the tuple by these specification functions -- exhaustive tuples x spelling freedoms (S) and every T_N string against an independent reference parser, on the real code."),
-    'C03': dict(level='other', groups=['fmt', 'qual', 'purl', 'pkgtype'], kani=ESC, bounded=['format:C03', 'tokens:C03', 'spell:C03', 'qualmap', 'preds', 'shapes'] + A,
+    'C03': dict(level='other', groups=['fmt', 'qual', 'purl', 'pkgtype'], kani=ESC, bounded=['format:C03', 'tokens:C03', 'scale:C03', 'spell:C03', 'qualmap', 'preds', 'shapes'] + A,
         explanation='Proved (Verus): on Ok, the output of Display::fmt is exactly canon_spec(type, parts) = pkg: type / [namespace /] name [@ version] [? k=v & ...] [# subpath] with absent parts omitted, pairs in storage order; storage order is strictly ascending after every verified mutator; accessors map empty to None; the documented panic is the precondition. Complete (Kani): every byte of every escape set, upper-case hex. BOUNDED: retain keeps the order; cross-check against an independent renderer on every Unicode scalar value in every component position, all ASCII pairs, T_N, S, and the map exploration.'),
-    'C04': dict(level='other', groups=['builder', 'parse', 'lib_shape', 'qual', 'pkgtype', 'cksum', 'purl'], kani=['type_char', 'key_char'], bounded=['tokens:C04', 'builder', 'protocol', 'preds', 'checksum'] + A,
+    'C04': dict(level='other', groups=['builder', 'parse', 'lib_shape', 'qual', 'pkgtype', 'cksum', 'purl'], kani=['type_char', 'key_char'], bounded=['tokens:C04', 'scale:C04', 'builder', 'protocol', 'preds', 'checksum'] + A,
         explanation='Proved (Verus) for every PurlShape implementation: build() returns a value with non-empty name, the qualifier invariant (valid lower-case keys, strictly ascending, each retrievable: search/get contracts), non-empty values including the checksum text, after exactly one hook call (build_post); from_str ends in build() (parse_post); built-in shapes validate and ASCII-lower-case the type; the checksum text is the strictly sorted listing with lower-case hex (canon_text). Assumed at two call sites inside build(): Qualifiers::retain(non-empty) (FnMut is outside Verus) and try_get_typed::<Checksum>() -- both BOUNDED by the map / checksum / protocol suites.'),
-    'C05': dict(level='other', groups=['parse', 'parse_seg', 'lib_shape', 'qual', 'pkgtype', 'builder', 'cksum'], kani=['type_char', 'key_char'], bounded=['faults', 'tokens:C05', 'lower', 'checksum'] + A,
+    'C05': dict(level='other', groups=['parse', 'parse_seg', 'lib_shape', 'qual', 'pkgtype', 'builder', 'cksum'], kani=['type_char', 'key_char'], bounded=['faults', 'tokens:C05', 'scale:C05', 'lower', 'checksum'] + A,
         explanation="Proved (Verus): the error clauses of parse_post (scheme, missing type, missing name, invalid type before the conversion), dq_fold (item without '=', invalid key, key already present => InvalidQualifier; undecodable value => InvalidEscape), sub_fold / ns_fold (hidden '/', encoded dot segments, bad UTF-8 => InvalidEscape), ck_parse / canon text (malformed checksum => InvalidQualifier), build_post (empty name), pkg_finish_rel (maven without namespace), with the conversion of ParseError through From. BOUNDED: that a string with exactly one listed defect reaches exactly that clause -- every fault kind x position x spelling over S, never-accepted over T_N; PackageType::from_str (phf)."),
     'C06': dict(level='other', groups=['lib_lower', 'lib_shape', 'pkgtype', 'qual', 'builder', 'purl', 'parse_seg', 'cksum', 'fmt', 'parse'], kani=ESC + ['type_char', 'key_char', 'empty_is_invalid', 'package_type_names'],
-        bounded=['nopanic', 'tokens:C06', 'checksum', 'qualmap', 'protocol', 'preds', 'builder'],
+        bounded=['nopanic', 'tokens:C06', 'scale:C06', 'checksum', 'qualmap', 'protocol', 'preds', 'builder'],
         explanation='Deductive: every verified unit carries Verus obligations for arithmetic overflow (the checksum capacity computation included), unwrap, indexing, the three documented panics as preconditions, and termination of its loops; Kani adds its automatic checks on the harnessed code. Functions outside Verus (retain, try_from_iter, Index, IterMut, Entry combinators, Checksum accessors, serde, PackageType::from_str) are covered only BOUNDED: catch_unwind around every call of every domain, overflow checks on, random strings to 1 MiB.'),
-    'C07': dict(level='proof', groups=['parse_seg', 'parse'], kani=[], bounded=['segments', 'tokens:C07', 'faults'],
+    'C07': dict(level='proof', groups=['parse_seg', 'parse'], kani=[], bounded=['segments', 'tokens:C07', 'scale:C07', 'faults'],
         explanation="Proved (Verus, all strings, every T): from_str == parse_post routes the text after the last '#' to decode_subpath and the text before the last '/' of the path to decode_namespace; these equal sub_fold / ns_fold of the pieces between raw '/'; lemma_c07_of_phases: for every string the two phases accept, the reported namespace / subpath is the '/'-join of the decoded non-skipped pieces and splitting it at '/' gives exactly those segments back -- none empty, none containing '/', subpath segments not '.' or '..' -- or it is absent; the hooks of the built-in type parameters and the generic tail of build() leave namespace and subpath untouched (frames). Bounded cross-checks on the compiled code accompany the proof.",
         trusted=['decode(): a single call into the percent-encoding crate; its contract dec (percent-decode + strict UTF-8) and "a non-empty piece decodes to a non-empty string" are assumed (A: bounded replay)', 'std trim_matches / split / rsplit_once / split_once contracts (A: bounded replay)', 'a user-written PurlShape may overwrite namespace / subpath in its hook: the statement is read for the built-in type parameters']),
-    'C08': dict(level='other', groups=['lib_lower', 'pkgtype', 'builder', 'parse'], kani=['package_type_names'], bounded=['pkgrules', 'lower', 'tokens:C08'] + A,
+    'C08': dict(level='other', groups=['lib_lower', 'pkgtype', 'builder', 'parse'], kani=['package_type_names'], bounded=['pkgrules', 'lower', 'tokens:C08', 'scale:C08'] + A,
         explanation='Proved for all strings and all seven variants (Verus): nuget name = Unicode lower-casing (lower_seq), pypi name = pypi_norm written from the statement, maven refused iff the namespace has no significant segment, every other field untouched (frame), parser and builder both end in build() which applies the hook once. Unicode tables validated exhaustively (A). BOUNDED: unknown-type refusal (phf / unicase lookup), cross-checks on every scalar value.'),
     'C09': dict(level='other', groups=['builder', 'qual', 'pkgtype', 'purl', 'fmt', 'inverse'], kani=ESC, bounded=['builder', 'format:C09', 'preds', 'shapes'] + A,
         explanation='Proved (Verus): every setter sets its field and leaves every other field unchanged (frames => override and commutation), with_qualifier accepts exactly valid keys with the whole-content postcondition of insert, build() succeeds / fails as stated (build_post), Display == canon_spec. ALSO proved (group inverse): parsing canon_spec of normalised parts returns those parts (lemma_parse_canon). BOUNDED: the same for parts that are not normalised (insignificant namespace / subpath segments set through the builder) and end to end on the compiled code -- all call sequences of length <= 2 / 3 over a value universe, and every scalar value in every field.'),
-    'C10': dict(level='other', groups=['builder', 'purl', 'lib_lower', 'pkgtype', 'cksum'], kani=[], bounded=['tokens:C10', 'spell:C10', 'builder'] + A,
+    'C10': dict(level='other', groups=['builder', 'purl', 'lib_lower', 'pkgtype', 'cksum'], kani=[], bounded=['tokens:C10', 'scale:C10', 'spell:C10', 'builder'] + A,
         explanation='Proved (Verus): into_builder moves type and parts unchanged, build() = hook + generic clean-up (build_post), name rules are the specification functions lower_seq / pypi_norm, checksum text = canon_text. BOUNDED: idempotence of the whole pipeline on produced values -- every accepted T_N / S string and every built value is re-built and compared.'),
     'C11': dict(level='other', groups=['qual'], kani=['key_char'], bounded=['qualmap', 'preds'] + A,
         explanation='Proved (Verus) for all strings and all contents: key validity and lower-casing, comparator total (never None), search, get, contains_key, insert, remove, clear, '
@@ -77,7 +77,7 @@ PROPS = {
                     'content over a universe x every operation against a BTreeMap, to a fixpoint.'),
     'C12': dict(level='other', groups=['cksum', 'lib_lower', 'builder'], kani=[], bounded=['checksum'] + A,
         explanation="Proved (Verus): the text of a Checksum is canon_text(entries) -- the strictly sorted listing, lower-case hex -- for EVERY order in which the hash map yields its entries (iteration order modelled as arbitrary; uniqueness lemma), refused iff some value is not an even number of hex digits, no arithmetic overflow for any map including the empty one; parsing equals ck_parse (split ',', last ':', lower-cased algorithm, duplicates refused); build() stores that text. BOUNDED: insert / insert_raw / remove / get and text -> entries -> text: all insertion sequences (length <= 3 / 4) over 10 algorithms x 5 byte strings with case variants, typed round trip, equivalent spellings."),
-    'C13': dict(level='proof', groups=['lib_shape'], kani=['type_char'], bounded=['preds', 'shapes', 'tokens:C13'] + A,
+    'C13': dict(level='proof', groups=['lib_shape'], kani=['type_char'], bounded=['preds', 'shapes', 'tokens:C13', 'scale:C13'] + A,
         explanation='Proved (Verus, all strings): the finish bodies of String, Cow<str> (both arms) and SmartString satisfy the SAME functional postcondition shape_rel '
                     '(Ok iff valid type; on Ok the type is ASCII-lower-cased; parts untouched), package_type() is the identity view; everything else is one generic body. '
                     'Bounded cross-checks on the compiled code accompany the proof.',
@@ -97,7 +97,7 @@ PROPS = {
         explanation='Proved (Verus, all strings, all seven types): builder_with_combined_name splits at last_index_of / first_index_of, combined_name joins; lemma_c18_roundtrip derives the '
                     'round trip from proved split/join lemmas. A bounded cross-check on the compiled code accompanies the proof.',
         trusted=['std rsplit_once / split_once contracts (A: bounded replay)']),
-    'C19': dict(level='other', groups=['qual', 'inverse', 'fmt'], kani=[], bounded=['eq', 'tokens:C19', 'preds'] + A,
+    'C19': dict(level='other', groups=['qual', 'inverse', 'fmt'], kani=[], bounded=['eq', 'tokens:C19', 'scale:C19', 'preds'] + A,
         explanation='Proved (Verus): QualifierKey comparisons are total and coincide with structural equality on stored keys; lemma_canon_injective: two normalised values with the same canonical string have the same type text and the same field texts (from the inverse theorem, group inverse). Derived Eq/Hash/Ord are assumed consistent (compiler). '
                     'BOUNDED: values that are not normalised (builder-made namespaces with empty segments etc.) and the end-to-end statement on the compiled code: all pairs of a near-collision corpus, parsed and built, String and PackageType.'),
 }
